@@ -427,6 +427,14 @@ def cli_dictionaries(base, seed, n, findings, samples):
         shape = CLI_SHAPES[i % len(CLI_SHAPES)]
         pool = [w for w in WORDS if len(w) < 40]
         rng.shuffle(pool)
+        # one spelling per word: two capitalisations of one word in the lists in force is the listed case-variant finding
+        # (the later one replaces the earlier), which the server histories model; this step is about the file format
+        seen_fold, uniq = set(), []
+        for w in pool:
+            if fold(w) not in seen_fold:
+                seen_fold.add(fold(w))
+                uniq.append(w)
+        pool = uniq
         k = 1 if shape.startswith("one-word") else rng.randint(2, 6)
         user, filea, fileb, absent = pool[:k], pool[k:k + 2], pool[k + 2:k + 3], pool[k + 3:k + 5]
 
